@@ -47,6 +47,14 @@ CHECKS = {
    technique="term sweep for idempotence/termination plus explicit-state search over orderings of simplify calls on one Simplifier instance (sparse and dense caches)",
    text="Over the C01 term space every term is simplified twice (idempotence, sparse = dense cache) under a deadline of 100x the slowest normal call (termination); all ordered pairs (thorough: triples) of a pool of sub-term-sharing terms are fed to one Simplifier and each result must be the reference a fresh simplifier returns.",
    note="Termination is observed as return within a deadline, twice. Terms on which the simplifier panics inside baa (C01 findings) are skipped and counted."),
+ "C19": dict(level="exploration", engine="drv-misc", design="§4 C19",
+   technique="exhaustive enumeration of rule x width/sign instantiations with exhaustive operand evaluation against the reference evaluator; exhaustive round-trip sweep of the convertible fragment",
+   text="Every rule of the shipped rewrite set is instantiated for every assignment of its width variables (operand widths 1..4/5, derived widths up to full precision) and both values of every sign variable; for every instance whose side condition holds both sides are lowered with the crate's own from_arith and compared on ALL operand values; every expression of the convertible fragment with <= 2 operators is converted to the e-graph language and back and compared exhaustively.",
+   note="Trusted: pvcore reference evaluator. Widths above 5 (operands) are not explored."),
+ "C20": dict(level="model_checking", engine="drv-misc", design="§4 C20",
+   technique="explicit-state search over operation histories of real ValueSummary objects; invariant (disjoint, exhaustive guards; denotation) evaluated in every state under all 2^7 valuations",
+   text="All histories of new/apply_bin_op/apply_ite/coalesce/import_into_guard up to depth 3(+1 unary) quick / 4(+1) thorough over a fixed terminal set are replayed on real summaries (through the cfg(patronus_verif) hooks); in every state and for every valuation of the terminals exactly one guard must hold and the selected value must equal the reference denotation; expr_to_guard is swept over all boolean terms with <= 2 operators.",
+   note="Trusted: reference denotation computed by pvcore evalref; hooks verif_entries/verif_eval only read."),
 }
 
 NOT_YET = {}
@@ -84,6 +92,7 @@ def main():
         "engines": [
             {"name": "drv-mc", "path": "/verif/harness/drv-mc", "serves_properties": ["C02", "C03", "C04", "C10", "C15"], "kind_free_text": "real bmc/pdr/encoding run in worker subprocesses against the reference solver refsmt (smtref crate) placed first on PATH under the real solvers' names; explicit-state oracle pvcore::tsref"},
             {"name": "drv-smt", "path": "/verif/harness/drv-smt", "serves_properties": ["C05", "C14"], "kind_free_text": "term/command/model-value enumeration against the strict reference SMT-LIB front end smtref"},
+            {"name": "drv-misc", "path": "/verif/harness/drv-misc", "serves_properties": ["C19", "C20"], "kind_free_text": "rule-instance enumeration for the e-graph rewrites; explicit-state history search over ValueSummary through the patronus_verif hooks"},
             {"name": "drv-expr", "path": "/verif/harness/drv-expr", "serves_properties": ["C01", "C06", "C12", "C13"], "kind_free_text": "bounded-exhaustive enumeration of terms / construction histories over the real expression code"},
         ],
         "checks": checks,
